@@ -13,7 +13,7 @@ KINDS = [k for k in _ser.ALL_KINDS if k != "mention"]
 
 def run(tier, seed):
     quick = tier != "thorough"
-    runs = [("rdf", 1, KINDS), ("rdf", 2 if quick else 3, ["entity", "association"]),
+    runs = [("rdf", 1, KINDS), ("rdf", 2 if quick else 3, ["entity", "association", "start"]),
             ("rdf", 3, ["agent"])]
     behaviours = []
     stA = stT = 0
